@@ -141,6 +141,17 @@ theorem IoMap.nodup_keys_insert {m : IoMap} {k v : Nat} (h : m.keys.Nodup) : (m.
   have := (@IoMap.mem_keys_remove m k k).1 hk
   exact this.2 rfl
 
+theorem IoMap.keys_replace (m : IoMap) (k v : Nat) : (m.replace k v).keys = m.keys := by
+  simp only [IoMap.keys, IoMap.replace, List.map_map]
+  apply List.map_congr_left
+  intro e _
+  simp only [Function.comp]
+  split
+  · rename_i h
+    have : e.1 = k := by simpa using h
+    exact this.symm
+  · rfl
+
 theorem IoMap.get_remove {m : IoMap} {k x : Nat} :
     (m.remove k).get x = if x = k then none else m.get x := by
   simp only [IoMap.get, IoMap.remove, List.find?_filter]
@@ -485,6 +496,7 @@ def drawn : List Op → List Nat
 
 def Op.isMutate : Op → Bool
   | .mutate _ _ => true
+  | .resock _ _ _ => true
   | _ => false
 
 theorem map_setState_of_inv {β : Type} (f : Link → β) (hf : ∀ l tok, f { l with state := tok } = f l)
@@ -557,6 +569,23 @@ theorem split_step {β : Type} (f : Link → β) (K : List β) (D : List Nat) (m
         obtain ⟨l0, hl0, he⟩ := List.mem_map.1 this
         exact he ▸ h3 l0 hl0
     · simp [Op.isMutate] at hno
+  | resock idx sock tok =>
+    simp only [step]
+    split
+    · rcases hop with hf | hno
+      · obtain ⟨pre, post, h1, h2, h3⟩ := hmono
+        simp only [h1, setState_append]
+        split
+        · exact ⟨_, _, rfl, by rw [map_setState_of_inv f hf]; exact h2, h3⟩
+        · refine ⟨_, _, rfl, h2, ?_⟩
+          intro l hl
+          have : l.connId ∈ (setState post (idx - pre.length) tok).map (·.connId) :=
+            List.mem_map.2 ⟨l, hl, rfl⟩
+          rw [map_connId_setState] at this
+          obtain ⟨l0, hl0, he⟩ := List.mem_map.1 this
+          exact he ▸ h3 l0 hl0
+      · simp [Op.isMutate] at hno
+    · exact hmono
 
 theorem split_run {β : Type} (f : Link → β) (K : List β) (mk : Ip → Label) (ops : List Op) (s : Sys)
     (D : List Nat)
@@ -573,6 +602,17 @@ theorem split_run {β : Type} (f : Link → β) (K : List β) (mk : Ip → Label
     simpa [drawn, Srtla.Reload.run, List.append_assoc] using this
 
 /-! ## Labels stay unique when the label function is injective -/
+
+theorem nodup_map_of_injective {α β : Type} (f : α → β) (hinj : Function.Injective f) (l : List α)
+    (h : l.Nodup) : (l.map f).Nodup := by
+  induction l with
+  | nil => simp
+  | cons x xs ih =>
+    rw [List.nodup_cons] at h
+    rw [List.map_cons, List.nodup_cons]
+    refine ⟨fun hmem => ?_, ih h.2⟩
+    obtain ⟨y, hy, hxy⟩ := List.mem_map.1 hmem
+    exact h.1 (hinj hxy ▸ hy)
 
 theorem mkLabel_injective (host : String) (port : Nat) : Function.Injective (mkLabel host port) := by
   intro a b h
